@@ -17,7 +17,7 @@ PROPS = {
         kani=True,
         slices=["time", "network", "net_enum", "network_new"],
         witness_family="net",
-        level_text="Verus proves, for all networks satisfying Network::wf and all node pairs, that the real Network::can_reach / minimal_duration_between_nodes equal the timing rule written from the property statement; of the JSON loader the per-segment computations of create_service_trips are proved (R8 fragments): arrival = departure + route-segment duration, distance, seated passengers and formation limit are the route segment's / departure segment's own values, and the node is built from exactly these values in the right fields; a maintenance slot's node carries the slot's own id, location, times and track count; a given depot gets its own total capacity and exactly its listed per-type capacities; the look-ups by id, the zero-passengers rule and the loops of the loader are pinned by skeleton hashes, not proved",
+        level_text="Verus proves, for all networks satisfying Network::wf and all node pairs, that the real Network::can_reach / minimal_duration_between_nodes equal the timing rule written from the property statement; of the JSON loader the per-segment computations of create_service_trips are proved (R8 fragments): arrival = departure + route-segment duration, distance, seated passengers and formation limit are the route segment's / departure segment's own values, and the node is built from exactly these values in the right fields; a maintenance slot's node carries the slot's own id, location, times and track count; a given depot gets its own total capacity and exactly its listed per-type capacities; the zero-passengers rule counts zero as one for every segment (R8 statement fragment); the look-ups by id and the loops of the loader are pinned by skeleton hashes, not proved",
         level_note="trusted: vstd specs, key-model axioms for derived Hash, structural derived Eq/Ord; instance validity (Network::wf) is a precondition",
         scope="can_reach / minimal_duration_between_nodes equal the documented timing rule for all networks and node pairs; successors/predecessors: the scanned key range contains every reachable node and the filter keeps exactly the reachable ones (ties included); Network::new / create_network / create_depots (R8 fragments): the overflow depot has no per-type limit and capacity >= every demand the flow stage can raise, default depots get capacity = number of service trips for every type; create_service_trips (R8 fragments): per-segment node data",
         assumptions=A_COMMON + [
@@ -42,21 +42,21 @@ PROPS["C12"] = dict(
 
 
 PROPS["C01"] = dict(
-    slices=["network", "net_enum", "tour_pos", "tour_mod", "path", "tour_ctor", "sched_guard", "json_writer", "spawn_vehicle", "add_path", "override_reassign"],
+    slices=["network", "net_enum", "tour_pos", "tour_mod", "path", "tour_ctor", "sched_guard", "json_writer", "spawn_vehicle", "add_path", "override_reassign", "fit_reassign"],
     witness_family="tour",
     level_text="Verus proves on the real code: can_reach equals the documented timing rule; Tour::new_allow_invalid returns Ok exactly for node sequences that start at a start depot, end at an end depot, have only activities in between, at least one of them, and are pairwise connectable; replace_start_depot, replace_end_depot, remove and insert_path (given a connected path, which Path::new is proved to establish) preserve that invariant (Tour::wf); successors/predecessors enumerate exactly the connectable nodes. The schedule-level type guard check_receiver_type_compatibility returns true only if every moved node is compatible with the receiver's vehicle type. the JSON writer (vehicle_to_json) emits exactly the nodes of the tour it is given, in order, with the nodes' own data. spawn_vehicle_for_path refuses a path with a node that is not compatible with the vehicle type and gives the new vehicle exactly the given nodes (plus depots at the ends). add_path_to_vehicle_tour refuses a path with an incompatible node and keeps a compatible tour compatible; override_reassign refuses an incompatible segment",
     level_note="trusted: vstd, key-model axioms, derived Eq/Ord, the SeqIter shim, to_vec/Option::or/Result::unwrap_or specs, A-fmt; stub: Tour::position_of; A-path (paths handed to insert_path are connected) and A-type (compatible_with_vehicle_type guards in schedule/modifications.rs) are caller-side assumptions; A-text / A-serde for the writer",
     scope="tour-level feasibility invariant under the constructor and all four modifiers of solution/src/tour",
     assumptions=A_COMMON + A_ITER + [
         "A-path: every path handed to Tour::insert_path of a real vehicle is connected (holds for Path::new and paths cut from real tours; dummy-tour paths rely on the triangle inequality, D9)",
-        "A-type: of the compatible_with_vehicle_type guards at schedule level, check_receiver_type_compatibility, the guards of spawn_vehicle_for_path, add_path_to_vehicle_tour and override_reassign are proved; fit_reassign (same guard function) and spawn_vehicle_to_replace_dummy_tour are not yet under contract as whole functions",
+        "A-type: of the compatible_with_vehicle_type guards at schedule level, check_receiver_type_compatibility, the guards of spawn_vehicle_for_path, add_path_to_vehicle_tour and override_reassign are proved; fit_reassign are proved; spawn_vehicle_to_replace_dummy_tour is not yet under contract",
         "A-text / A-serde: text rendering of values and serde_json::to_value are opaque (see C03)",
     ],
 )
 PROPS["C10"] = dict(
-    slices=["network", "tour_pos", "tour_mod", "path", "sched_guard", "admission", "train_formation_update", "update_tours", "remove_segment", "spawn_vehicle", "add_path", "override_reassign"],
+    slices=["network", "tour_pos", "tour_mod", "path", "sched_guard", "admission", "train_formation_update", "update_tours", "remove_segment", "spawn_vehicle", "add_path", "override_reassign", "fit_reassign", "sched_ctor"],
     witness_family="tour",
-    level_text="clause 1 (every vehicle tour is a chronological path of connectable nodes from a start depot to an end depot with activities in between): same obligations as C01 on the Tour constructor and modifiers; cycle-membership clause: update_transitions_and_violation_fast keeps every type's rotation cycles well formed w.r.t. the new tours with exactly the new real vehicles of the type as members (under the stated caller-side precondition: no vehicle listed twice); formation, track and depot limits: the admission checks vehicle_replacement_in_train_formation and can_depot_spawn_vehicle_custom_usage are exact and update_train_formation applies them to exactly the moved nodes (same obligations as C02); sorted listings: update_tours keeps the vehicle and dummy listings sorted, duplicate-free and matching the maps; formation/tour agreement: the whole modifications under contract (remove_segment, spawn_vehicle_for_path, add_path_to_vehicle_tour, override_reassign) add / remove the vehicle in the formations of exactly the nodes its tour gains / loses; that this holds for every reachable schedule (fit_reassign, the dummy operations) is NOT decided",
+    level_text="clause 1 (every vehicle tour is a chronological path of connectable nodes from a start depot to an end depot with activities in between): same obligations as C01 on the Tour constructor and modifiers; cycle-membership clause: update_transitions_and_violation_fast keeps every type's rotation cycles well formed w.r.t. the new tours with exactly the new real vehicles of the type as members (under the stated caller-side precondition: no vehicle listed twice); formation, track and depot limits: the admission checks vehicle_replacement_in_train_formation and can_depot_spawn_vehicle_custom_usage are exact and update_train_formation applies them to exactly the moved nodes (same obligations as C02); sorted listings: update_tours keeps the vehicle and dummy listings sorted, duplicate-free and matching the maps; formation/tour agreement: the whole modifications under contract (remove_segment, spawn_vehicle_for_path, add_path_to_vehicle_tour, override_reassign) add / remove the vehicle in the formations of exactly the nodes its tour gains / loses; the base case: Schedule::empty satisfies the schedule invariants the modification slices take as precondition (ids, listings, usage table, formations, transitions) and from_tours re-establishes them after every spawn; that this holds for every reachable schedule (the dummy operations, and the re-establishment of every invariant by every modification) is NOT decided",
     level_note="same trusted base and caller-side assumptions as C01",
     scope="Tour::wf established by new_allow_invalid and preserved by replace_start_depot / replace_end_depot / remove / insert_path",
     assumptions=A_COMMON + A_ITER + ["A-path, A-type as for C01", "schedule-level invariants (formations, listings, depot usage, cycles) not under contract"],
@@ -70,9 +70,9 @@ PROPS["C02"] = dict(
     assumptions=A_COMMON + ["A-stub: VehicleTypes::get returns the stored type", "A-lib: rs_graph::mcf::network_simplex returns a circulation within the edge bounds; the graph plumbing of solve_for_vehicle_type is pinned by a skeleton hash, not verified", "the stand-in 100 for 'no formation limit' in the flow network is documented behaviour (trips needing more than 100 unlimited vehicles are not fully served by the start solution)"],
 )
 PROPS["C03"] = dict(
-    slices=["json_out", "json_writer", "train_formation_update", "remove_segment", "spawn_vehicle", "add_path", "override_reassign"],
+    slices=["json_out", "json_writer", "train_formation_update", "remove_segment", "spawn_vehicle", "add_path", "override_reassign", "fit_reassign"],
     witness_family=None,
-    level_text="Verus proves on the verbatim writer functions of solution/src/json_serialisation.rs (schedule_dead_head_trip, vehicle_to_json, fleet_to_json, departure_segments_to_json, maintenance_slots_to_json, depot_usage_to_json, depots_usage_to_json, schedule_to_json): every dead-head trip lies inside the gap between the two activities it connects; a vehicle's itinerary lists exactly the service nodes and maintenance nodes of its tour, in tour order, each with the node's own id, origin, destination and times, and its dead-head trips are exactly the legs whose locations differ; the trip perspective lists every service node / maintenance slot of the network's index lists once, with the node's own data and the schedule's train formation of that node; depot loads are one entry per depot of the depot table and spawning type with the number of vehicles spawned there; the document is assembled from exactly these parts. That the stored train formation of a node equals the set of vehicles whose tour contains it (the two views agree) is an invariant of Schedule: the whole modifications under contract (remove_segment, spawn_vehicle_for_path, add_path_to_vehicle_tour, override_reassign, via update_train_formation) add / remove a vehicle in the formations of exactly the nodes its tour gains / loses; fit_reassign and the dummy operations are not yet under contract, so the agreement is NOT decided for every reachable schedule; arrival = departure + duration is a property of the input loader (Network::new copies the times) and not decided",
+    level_text="Verus proves on the verbatim writer functions of solution/src/json_serialisation.rs (schedule_dead_head_trip, vehicle_to_json, fleet_to_json, departure_segments_to_json, maintenance_slots_to_json, depot_usage_to_json, depots_usage_to_json, schedule_to_json): every dead-head trip lies inside the gap between the two activities it connects; a vehicle's itinerary lists exactly the service nodes and maintenance nodes of its tour, in tour order, each with the node's own id, origin, destination and times, and its dead-head trips are exactly the legs whose locations differ; the trip perspective lists every service node / maintenance slot of the network's index lists once, with the node's own data and the schedule's train formation of that node; depot loads are one entry per depot of the depot table and spawning type with the number of vehicles spawned there; the document is assembled from exactly these parts. That the stored train formation of a node equals the set of vehicles whose tour contains it (the two views agree) is an invariant of Schedule: the whole modifications under contract (remove_segment, spawn_vehicle_for_path, add_path_to_vehicle_tour, override_reassign, via update_train_formation) add / remove a vehicle in the formations of exactly the nodes its tour gains / loses; fit_reassign likewise; the dummy operations are not yet under contract and the re-establishment of all invariants is proved only in part, so the agreement is NOT decided for every reachable schedule; arrival = departure + duration is a property of the input loader (Network::new copies the times) and not decided",
     level_note="trusted: vstd, rapid_time operator contracts (verified in slice time), Network accessors (verified in slice network), A-text (to_string / String + &str / as_iso render the named value), A-serde (serde_json::to_value keeps the struct), SeqIter stubs for the repository's iterators, A-index (Network's per-type lists enumerate the service / maintenance nodes exactly once)",
     scope="solution/src/json_serialisation.rs: all writer functions",
     assumptions=A_COMMON + A_ITER + [
@@ -85,17 +85,17 @@ PROPS["C03"] = dict(
 )
 PROPS["C09"] = dict(
     kani=True,
-    slices=["tour_mod", "formation", "depot_usage", "sched_guard", "train_formation_update", "update_tours", "remove_segment", "spawn_vehicle", "add_path", "override_reassign"],
+    slices=["tour_mod", "formation", "transition", "depot_usage", "sched_guard", "train_formation_update", "update_tours", "remove_segment", "spawn_vehicle", "add_path", "override_reassign", "fit_reassign", "sched_ctor", "depot_ops"],
     witness_family="tour",
-    level_text="tour level: Verus proves that compute_*_of_nodes (and hence new_computing / every freshly built tour) equal the from-scratch meaning of the five cached figures written from the property text, and that replace_start_depot, replace_end_depot, remove and insert_path keep all five caches exact (delta formulas = recomputation), including tours through the infinitely distant overflow depot; schedule level: the depot-usage table stays exact for the updated vehicle and untouched for all others under update_depot_usage (from-scratch meaning: spawned/despawned sets per depot and type), depot_balance / total_depot_balance_violation are the sizes' differences resp. their absolute sum, update_tour_and_costs applies exactly the cost delta, update_tours (the common bookkeeping of fit/override_reassign) applies exactly the cost delta of the replaced / removed real tours and keeps the depot-usage table exact for provider and receiver and untouched for everyone else, update_train_formation changes the unserved-passengers pair by exactly - Σ unserved(old formation) + Σ unserved(new formation) over the moved service trips, update_transitions_and_violation_fast and set_next_day_transitions keep the schedule's maintenance violation equal to the sum of the per-type totals; the other schedule aggregates (costs across whole modifications, unserved passengers) are NOT decided",
+    level_text="tour level: Verus proves that compute_*_of_nodes (and hence new_computing / every freshly built tour) equal the from-scratch meaning of the five cached figures written from the property text, and that replace_start_depot, replace_end_depot, remove and insert_path keep all five caches exact (delta formulas = recomputation), including tours through the infinitely distant overflow depot; schedule level: the depot-usage table stays exact for the updated vehicle and untouched for all others under update_depot_usage (from-scratch meaning: spawned/despawned sets per depot and type), depot_balance / total_depot_balance_violation are the sizes' differences resp. their absolute sum, Schedule::empty starts every aggregate at its from-scratch value (compute_unserved_passengers = the sum over all service trips) and from_tours keeps them exact, the depot-only operations (reassign_end_depots_greedily, improve_depots, recompute_transitions_for) keep costs, depot usage and the violation sum exact, update_tour_and_costs applies exactly the cost delta, update_tours (the common bookkeeping of fit/override_reassign) applies exactly the cost delta of the replaced / removed real tours and keeps the depot-usage table exact for provider and receiver and untouched for everyone else, update_train_formation changes the unserved-passengers pair by exactly - Σ unserved(old formation) + Σ unserved(new formation) over the moved service trips, update_transitions_and_violation_fast and set_next_day_transitions keep the schedule's maintenance violation equal to the sum of the per-type totals; the other schedule aggregates (costs across whole modifications, unserved passengers) are NOT decided",
     level_note="trusted: as C01 plus A-iter sums (Sum for Distance/Duration folds with +; integer sums do not wrap); Network::bounded magnitudes are a stated precondition",
     scope="the five per-tour caches under the constructor and all four modifiers; depot-usage bookkeeping of one vehicle update",
     assumptions=A_COMMON + A_ITER + ["Schedule.{costs, unserved_passengers, maintenance_violation, depot_usage} delta updates are not under contract"],
 )
 PROPS["C13"] = dict(
-    slices=["formation", "train_formation_update", "update_tours", "remove_segment", "spawn_vehicle", "add_path", "override_reassign"],
+    slices=["formation", "train_formation_update", "update_tours", "remove_segment", "spawn_vehicle", "add_path", "override_reassign", "fit_reassign", "depot_ops"],
     witness_family=None,
-    level_text="last sentence and the formation frame: Verus proves that TrainFormation::replace puts the new vehicle at the replaced one's position, add_at_tail appends, remove keeps the order, and replace/remove return Err iff the vehicle is absent; Schedule::update_train_formation (the formation bookkeeping of every modification) gives every moved non-depot node exactly the replacement that vehicle_replacement_in_train_formation specifies for its old formation, leaves the formations of all other nodes untouched, and refuses iff one replacement is refused; Schedule::update_tours replaces exactly the provider's and the receiver's tour (a provider without new tour disappears from tours / vehicles / its sorted listing, a dummy provider from the dummy tours and listing), leaves every other vehicle, tour, dummy tour and listing untouched and passes the formation update through; Schedule::remove_segment as a whole modification: the provider loses exactly the segment (or the whole-tour case delegates to replace_vehicle_by_dummy), the removed service trips are handed back in exactly one new dummy tour with a fresh id (none if there is no service trip), every other tour, the vehicle set, the formations of all other nodes stay untouched, the aggregates follow (costs, unserved passengers, depot usage, transitions); Tour::new_dummy keeps exactly the service trips in order; Schedule::spawn_vehicle_for_path adds exactly one vehicle with a fresh id whose tour is the given path in order with depots at the ends (defect D12), inserts the id at its sorted position, changes no other tour, vehicle, dummy or listing, and the aggregates follow; Schedule::override_reassign: the provider loses exactly the segment (or disappears), the receiver's tour is the insertion of the removed path, the displaced service trips go to exactly one new dummy tour with a fresh id, a real receiver leaves the formations of every displaced node whether or not a dummy tour is created, formations elsewhere and all other tours untouched; Schedule::add_path_to_vehicle_tour: the vehicle's tour is prefix + whole path + suffix, the returned conflict path is exactly the dropped block, the vehicle joins the formations of the path and leaves those of the dropped block, it is refused exactly for an incompatible node, a full start depot or a full formation; fit_reassign / fit_path_into_tour, delete_dummy and replace_vehicle_by_dummy as whole modifications are NOT yet decided",
+    level_text="last sentence and the formation frame: Verus proves that TrainFormation::replace puts the new vehicle at the replaced one's position, add_at_tail appends, remove keeps the order, and replace/remove return Err iff the vehicle is absent; Schedule::update_train_formation (the formation bookkeeping of every modification) gives every moved non-depot node exactly the replacement that vehicle_replacement_in_train_formation specifies for its old formation, leaves the formations of all other nodes untouched, and refuses iff one replacement is refused; Schedule::update_tours replaces exactly the provider's and the receiver's tour (a provider without new tour disappears from tours / vehicles / its sorted listing, a dummy provider from the dummy tours and listing), leaves every other vehicle, tour, dummy tour and listing untouched and passes the formation update through; Schedule::remove_segment as a whole modification: the provider loses exactly the segment (or the whole-tour case delegates to replace_vehicle_by_dummy), the removed service trips are handed back in exactly one new dummy tour with a fresh id (none if there is no service trip), every other tour, the vehicle set, the formations of all other nodes stay untouched, the aggregates follow (costs, unserved passengers, depot usage, transitions); Tour::new_dummy keeps exactly the service trips in order; Schedule::spawn_vehicle_for_path adds exactly one vehicle with a fresh id whose tour is the given path in order with depots at the ends (defect D12), inserts the id at its sorted position, changes no other tour, vehicle, dummy or listing, and the aggregates follow; Schedule::override_reassign: the provider loses exactly the segment (or disappears), the receiver's tour is the insertion of the removed path, the displaced service trips go to exactly one new dummy tour with a fresh id, a real receiver leaves the formations of every displaced node whether or not a dummy tour is created, formations elsewhere and all other tours untouched; Schedule::add_path_to_vehicle_tour: the vehicle's tour is prefix + whole path + suffix, the returned conflict path is exactly the dropped block, the vehicle joins the formations of the path and leaves those of the dropped block, it is refused exactly for an incompatible node, a full start depot or a full formation; depot-only operations (reassign_end_depots_greedily, improve_depots, improve_depots_of_tour, recompute_transitions_for) change no activity: every tour keeps its inner nodes in order, only the first / last node may be replaced by a depot node, everything else is untouched; Schedule::fit_reassign with its greedy helper fit_path_into_tour (full verbatim body, `while let` with `continue`): the moved nodes are a duplicate-free sub-sequence of the segment, the provider keeps exactly its other nodes (or disappears when only depots are left), the receiver keeps all its activities and gains exactly the moved ones, no new dummy, formations of the moved nodes get provider replaced by receiver; WHICH conflict-free nodes the greedy search moves is not specified; delete_dummy and replace_vehicle_by_dummy as whole modifications are NOT yet decided",
     level_note="trusted: vstd Vec specs (push, swap_remove, remove, clone), SeqIter::position, A-clone (derived Clone of Vehicle returns an equal value)",
     scope="solution/src/train_formation.rs",
     assumptions=["A-iter: SeqIter::position = first index satisfying the predicate", "A-clone: derived Clone returns an equal value"],
@@ -134,7 +134,7 @@ PROPS["C16"] = dict(
 )
 
 PROPS["C04"] = dict(
-    slices=["objective", "depot_usage", "sched_guard", "admission", "tour_mod", "reassign", "train_formation_update", "update_tours", "remove_segment"],
+    slices=["objective", "depot_usage", "sched_guard", "admission", "tour_mod", "reassign", "train_formation_update", "update_tours", "remove_segment", "sched_ctor"],
     witness_family="tour",
     level_text="per-function links of the chain 'reported component = independent evaluation': Verus proves on the real code that each of the four indicators of solver/src/objective.rs reports exactly the schedule's aggregate of its name (unserved passengers: the pair added; maintenance violation; number of real vehicles; costs) and that objective::build arranges them as the four hierarchy levels in the order unserved passengers, maintenance violation, vehicle count, costs, each with coefficient one; that the aggregates equal their recomputation is proved where C09 proves it: the five per-tour caches incl. costs under every tour operation, compute_unserved_passengers_at_node (per-segment shortfall), the schedule's maintenance violation = sum over the installed transitions under update_transitions_and_violation_fast and set_next_day_transitions (defect D10 was exactly a C04 violation), the schedule's costs follow the tours' costs under reassign_end_depots_consistent_with_transitions, transition totals = sum of positive parts of the cycle counters (C15). The composition over a whole history of schedule modifications (Schedule.costs and unserved_passengers across fit/override_reassign, spawn, delete) is NOT decided",
     level_note="trusted: A-dyn (hand-declared trait Indicator with evaluate only; a boxed indicator evaluates like its impl), A-im, `as i64` casts stated as cast values plus exactness when the number fits; A-lib: rapid_solve's Objective::evaluate (sum per level, lexicographic comparison) and ObjectiveValue printing are not under contract; base of C09/C15",
@@ -162,9 +162,9 @@ PROPS["C07"] = dict(
 
 ALL_SLICES = ["time", "network", "net_enum", "limits", "json_out", "tour_pos", "tour_mod", "path", "tour_ctor", "formation", "transition",
               "tsp_ranges", "admission", "reassign", "pipeline", "mcf_bounds", "sched_guard", "depot_usage", "network_new", "json_writer",
-              "objective", "train_formation_update", "update_tours", "remove_segment", "spawn_vehicle", "add_path", "override_reassign"]
+              "objective", "train_formation_update", "update_tours", "remove_segment", "spawn_vehicle", "add_path", "override_reassign", "sched_ctor", "depot_ops", "fit_reassign"]
 PROPS["C06"] = dict(
-    slices=["time", "network_new", "tsp_ranges", "mcf_bounds", "limits", "objective", "pipeline", "json_out", "transition"],
+    slices=["time", "network_new", "tsp_ranges", "mcf_bounds", "limits", "objective", "pipeline", "json_out", "transition", "sched_ctor"],
     thorough_slices=ALL_SLICES,
     witness_family=None,
     level_text="per-function totality only: for every function under contract (quick tier: the places where the unchanged code used to panic -- overflow depot capacity D5/D13, flow-network edge bounds D14, 3-opt index ranges D7 -- plus the rotation-cycle operations, time arithmetic, limits, objective and pipeline wiring; thorough tier: every slice) Verus proves that, under the function's stated preconditions (parts of instance validity and of schedule validity), no unwrap / expect / index / slice / division / explicit panic! is reachable, no integer operation overflows or underflows (so the optimised build and the build with arithmetic checks agree) and every loop terminates (decreases clauses; for-loops over finite sequences). That the preconditions hold along the whole pipeline, termination of the local search and of the external network simplex, and panic freedom of the functions not under contract are NOT decided",
@@ -179,7 +179,7 @@ PROPS["C06"] = dict(
 
 NOT_APPLICABLE = {
     "C08": "the acceptance rule and fixpoint live in rapid_solve (rayon, channels, dyn objects); trajectory property. The one per-function part, the level order unserved passengers / maintenance violation / vehicle count / costs of objective::build, is proved under C04 (C04.build.*)",
-    "C11": "neighbourhood candidates are compositions of schedule-level modifications generated under rayon; outside per-function contracts",
-    "C14": "optimality of the circulation returned by rs_graph::mcf::network_simplex; the network construction is a 230-line loop over HashMaps with I/O",
+    "C11": "neighbourhood candidates are compositions of schedule-level modifications generated under rayon; outside per-function contracts. The schedule-level modifications the swaps are composed of are under contract one by one (C13 / C09 / C10: remove_segment, override_reassign, add_path_to_vehicle_tour, spawn_vehicle_for_path, improve_depots, recompute_transitions_for), each under the schedule invariants as precondition; that every modification re-establishes ALL of them (the induction the property needs) is proved only in part, and the Swap::apply compositions and the rayon generator are not under contract",
+    "C14": "optimality of the circulation returned by rs_graph::mcf::network_simplex; the network construction is a 230-line loop over HashMaps with I/O. Per-function parts that are proved elsewhere: the edge bounds of the flow network (C02 / C07 / C06, slice mcf_bounds), the predecessor enumeration (C17) and, for the last sentence, Schedule::from_tours turns every given tour into the tour of exactly one vehicle (obligation C14.from_tours.one_vehicle_per_given_tour in slice sched_ctor, run under C09 / C10); the decomposition of the circulation into tours (solve_for_vehicle_type after the solver call) is not under contract",
     "C18": "HTTP concurrency and fault isolation across tokio tasks: no thread support in Verus (without rewriting to its permission types) or Kani",
 }
